@@ -239,12 +239,50 @@ where
 }
 
 type CellFn = fn(&mut Interp, &Header);
+/// callback with the arena as a trait object (engines B, C): the collection code is then
+/// instantiated once per element type, independent of the settings cell
+pub type DynFn<'f> = &'f mut dyn for<'x, 'y> FnMut(&'x mut (dyn bump_scope::traits::MutBumpAllocatorCoreScope<'y> + 'y), Info);
+type DynCellFn = for<'f> fn(usize, u8, DynFn<'f>) -> bool;
+
+fn dyn_start<A, const UP: bool, const GA: bool, const DE: bool, const SH: bool, const MCS: usize>(ma: usize, ctor: u8, f: DynFn<'_>) -> bool
+where
+    A: Handle + BaseAllocator<Bool<GA>>,
+{
+    macro_rules! go {
+        ($MA:literal) => {{
+            let r: Result<Bump<A, S<$MA, UP, GA, DE, SH, MCS>>, _> = match ctor % 3 {
+                0 => Bump::try_new_in(A::new()),
+                1 => Bump::try_with_size_in(2048, A::new()),
+                _ => {
+                    if GA { Bump::try_new_in(A::new()) } else { Ok(Bump::default()) }
+                }
+            };
+            match r {
+                Ok(mut b) => {
+                    let sc = b.as_mut_scope();
+                    let info = sc.x_info();
+                    f(sc, info);
+                    true
+                }
+                Err(_) => false,
+            }
+        }};
+    }
+    match ma {
+        1 => go!(1),
+        2 => go!(2),
+        4 => go!(4),
+        8 => go!(8),
+        _ => go!(16),
+    }
+}
 
 pub struct Cell {
     pub name: &'static str,
     pub f: CellFn,
     pub ga: bool,
     pub home: usize,
+    pub d: DynCellFn,
 }
 
 macro_rules! cell {
@@ -253,6 +291,7 @@ macro_rules! cell {
             name: concat!(stringify!($A), " home=", stringify!($H), " up=", stringify!($UP), " ga=", stringify!($GA), " de=", stringify!($DE), " sh=", stringify!($SH), " mcs=", stringify!($MCS)),
             f: start::<$A<0, $H>, $UP, $GA, $DE, $SH, $MCS>,
             home: $H,
+            d: dyn_start::<$A<0, $H>, $UP, $GA, $DE, $SH, $MCS>,
             ga: $GA,
         }
     };
